@@ -650,6 +650,40 @@ pub fn sites(tier: Tier) -> Vec<Site> {
                 }
             }));
     }
+    // very long texts through an UNOPTIMISED build of the library (/verif/deepbin, one process per case): what the
+    // optimiser quietly repairs (a recursion per marker or per character that it turns into a loop) is live in the
+    // builds users test with.  The child's bytes and text must be those this (optimised) build makes.
+    {
+        let units = ["a", "^", "^^", "^J", "^J\u{30a2}", "\u{e9}", "^8", "\u{11b}", "\u{30a2}", "\u{1f600}", "\0", "^L\u{e9}^E\u{11b}", "^L", "^E"];
+        let counts: Vec<usize> = if tier == Tier::Thorough { vec![1 << 12, 1 << 16, 1 << 20, 1 << 22] } else { vec![1 << 12, 1 << 16, 1 << 20] };
+        let n = (units.len() * counts.len()) as u64;
+        sites.push(Site::new("very-long-texts-unoptimised-build", n,
+            "14 units (plain, carets, markers alone and in front of text, characters of four pages, an astral character, NUL, page switches) repeated 2^12, 2^16, 2^20 (thorough: 2^22) times, each encoded and decoded in a child process of an unoptimised build of the library: no panic, no abort, no hang, and the same bytes and text as this build makes",
+            move |i, acc| {
+                acc.eval();
+                let u = units[(i as usize) / counts.len()];
+                let c = counts[(i as usize) % counts.len()];
+                let hexu: String = u.bytes().map(|b| format!("{b:02x}")).collect();
+                let replay = json!({"site": "very-long-texts-unoptimised-build", "index": i});
+                let fnv = |b: &[u8]| { let mut h: u64 = 0xcbf29ce484222325; for x in b { h ^= *x as u64; h = h.wrapping_mul(0x100000001b3); } h };
+                let s = u.repeat(c);
+                let here = guard(|| { let b = to_lossy_bytes(&s).to_vec(); let t = to_lossy_string(&b).to_string(); format!("ok {:016x} {:016x}", fnv(&b), fnv(t.as_bytes())) });
+                let here = match here { Ok(x) => x, Err(p) => { acc.violate(i, "C10|very-long-texts|panic".into(), format!("{u:?} x {c}: {p}"), replay); return; } };
+                match std::process::Command::new(deep_bin()).args(["codepage", hexu.as_str(), &c.to_string()]).output() {
+                    Err(e) => panic!("MACHINERY: cannot spawn the child: {e}"),
+                    Ok(o) => match o.status.code() {
+                        Some(0) => {
+                            let there = String::from_utf8_lossy(&o.stdout).trim().to_string();
+                            if there == here { acc.class("builds-agree"); acc.nontrivial(); }
+                            else { acc.violate(i, "C10|very-long-texts|builds-differ".into(), format!("{u:?} x {c}: optimised build {here}, unoptimised build {there}"), replay); }
+                        },
+                        Some(1) => acc.violate(i, format!("C10|very-long-texts|{}", String::from_utf8_lossy(&o.stdout).lines().next().unwrap_or("failed")), format!("{u:?} x {c} in an unoptimised build: {}", String::from_utf8_lossy(&o.stdout)), replay),
+                        Some(2) => panic!("MACHINERY: the child refused its arguments"),
+                        other => acc.violate(i, "C10|very-long-texts|process-died".into(), format!("{u:?} x {c} in an unoptimised build: the process died ({other:?}, {:?}): {}", o.status, String::from_utf8_lossy(&o.stderr).chars().take(300).collect::<String>()), replay),
+                    },
+                }
+            }));
+    }
     // ... nor between threads: histories of 2 and 3 conversions spread over two threads
     {
         let corpus: Vec<(String, String)> = ["", "plain", "\u{11b}\u{161}", "\u{448}\u{44e} ok", "\u{30a2}\u{30a2}", "^J\u{30a2}^L\u{e9}", "\u{1f600} \u{f600}", "\u{e9}\u{11b}\u{448}", "\u{d55c}\u{ae00}", "\u{4e2d}\u{6587} ^^", "\u{3b1}\u{3b2}^8\u{3b3}", "a^Eb^Cc"].iter().map(|s| (format!("text {s:?}"), s.to_string())).collect();
@@ -662,7 +696,11 @@ pub fn sites(tier: Tier) -> Vec<Site> {
     sites
 }
 
+/// The one-case runner built in the dev profile (see /verif/deepbin and ./check).
+fn deep_bin() -> String { std::env::var("VERIF_DEEP_BIN").unwrap_or_else(|_| "/verif/target/deep/debug/deep".into()) }
+
 pub fn run(tier: Tier, replay: Option<String>) -> i32 {
+    if !std::path::Path::new(&deep_bin()).exists() { eprintln!("MACHINERY: {} is missing (./check builds it)", deep_bin()); return 3; }
     let s = sites(tier);
     let states: u64 = 11;
     let trans = s[0].n;
